@@ -67,4 +67,7 @@ def run(ctx, res):
     res.require_min("R-FRAME-ID", 2)
     res.guard(RR.rule_stop_chain, prog, res)
     res.require_min("R-STOP-CHAIN", 2)
+    # a worker that finds a stale stop request quits at once: the acquisition's frames never reach storage
+    res.guard(RR.rule_start_reset, prog, res)
+    res.require_min("R-START-RESET", 6)
     res.require_min("R-CONSUME", 3)
